@@ -366,6 +366,9 @@ class Interp:
             return z3.BoolVal(True)
         if isinstance(v, (VConst, VBound)):
             return z3.BoolVal(True)
+        if isinstance(v, VOpaque):
+            # truthiness of a value of unknown python type: an uninterpreted predicate of the value
+            return z3.Function('py_truthy', ValS, BoolS)(v.t)
         raise OutOfSubset('truth of %r' % (v,))
 
     def as_int(self, v):
@@ -576,6 +579,22 @@ class Interp:
         base = self.ev(node.value, fr)
         return self.getattr(base, node.attr, fr)
 
+    def attr_assigned_in_class(self, cls, attr):
+        cache = self.prog.__dict__.setdefault('_attr_assigned', {})
+        key = (cls.ident if hasattr(cls, 'ident') else id(cls), attr)
+        if key not in cache:
+            found = False
+            for c in self.prog.mro(cls):
+                if not isinstance(c, ClassInfo):
+                    continue
+                for f in c.methods.values():
+                    for n in ast.walk(f.node):
+                        if isinstance(n, ast.Attribute) and n.attr == attr and isinstance(n.ctx, ast.Store) \
+                                and isinstance(n.value, ast.Name) and n.value.id == 'self':
+                            found = True
+            cache[key] = found
+        return cache[key]
+
     def getattr(self, base, attr, fr, default=None):
         if isinstance(base, VObj):
             if attr in base.fields:
@@ -603,6 +622,13 @@ class Interp:
                 raise OutOfSubset('field %s.%s declared but not initialised' % (cls.name, attr))
             if fr.spec:
                 raise OutOfSubset('contract reads undeclared attribute %s.%s' % (cls.name, attr))
+            if isinstance(cls, ClassInfo) and self.attr_assigned_in_class(cls, attr):
+                # the class does set this attribute (e.g. in __init__) but no sidecar declares it: an existing field
+                # of unknown value, not an AttributeError (a new cached attribute must not raise an alarm by itself)
+                v = VOpaque(self.path.fresh_val('field.' + attr))
+                base.fields[attr] = v
+                self.path.notes.append('undeclared field %s.%s read as an unknown value' % (cls.name, attr))
+                return v
             raise PyRaise(self.builtin_exc('AttributeError', VStr(attr)))
         if isinstance(base, VConst):
             if base.kind == 'class':
